@@ -10,7 +10,7 @@ out=/verif/seeded/$ID; mkdir -p $out; cp -r seed/* $out/
 # make sure the patch is applied
 git apply --check -R seed/patch.diff 2>/dev/null || git apply seed/patch.diff
 suite=$(go build ./... 2>&1 && go test -vet=off -count=1 $(go list ./... | grep -v "/seed$") 2>&1); if echo "$suite" | grep -q "^FAIL\|^--- FAIL\|cannot\|undefined"; then S1="SUITE-FAILS-WITH-CHANGE"; else S1="suite passes with change"; fi
-demo=$(ls seed/*_test.go seed/demo* 2>/dev/null | head -1)
+demo=$(ls seed/*_test.go seed/*_test.go.txt seed/demo* 2>/dev/null | head -1); [ -n "$demo" ] || { echo "NO DEMO FOUND in seed/"; }
 cp $demo "$DEST"
 if go test -vet=off -count=1 "$@" >/tmp/seed_demo_with.log 2>&1; then D1="DEMO-PASSES-WITH-CHANGE(!)"; else D1="demo fails with change"; fi
 git apply -R seed/patch.diff
